@@ -757,11 +757,13 @@ class Frame(object):
         if bounding_f_range is None:
             bounding_min, bounding_max = 0, self.fchans
         else:
-            bounding_min = min(max(self.get_index(bounding_f_range[0]), 0),
-                               self.fchans)
-            bounding_max = max(min(self.get_index(bounding_f_range[1]),
-                                   self.fchans),
-                               bounding_min)
+            def _bound_index(f):
+                # Same rounding as get_index, but clamped to the band while still a float: an 
+                # open-ended bound (np.inf, 1e30) does not survive the cast to int
+                index = np.round((unit_utils.get_value(f, u.Hz) - self.fmin) / self.df)
+                return int(np.clip(index, 0, self.fchans))
+            bounding_min = _bound_index(bounding_f_range[0])
+            bounding_max = max(_bound_index(bounding_f_range[1]), bounding_min)
             
         restricted_fs = self.fs[bounding_min:bounding_max]
         if integrate_f_profile:
